@@ -1,7 +1,551 @@
-import Netpol.Model.Engine
-import Netpol.Model.Diff
-import Netpol.Model.Sort
+import Netpol.Proofs.EngineLayer
+import Netpol.Proofs.CacheLayer
+import Netpol.Properties.C05
+import Netpol.Properties.C11
+/-! # C17 — connectivity is per workload, independent of replicas and controller kind
+
+`list` reports connections between *workloads*. A workload manifest (Deployment, ReplicaSet,
+StatefulSet, DaemonSet, Job, CronJob, ReplicationController) is expanded into one or two pods
+(`Engine.podsFromWorkload`); the report line of a workload is computed on one of them. This file
+shows that nothing of the controller kind, the replica count or the names reaches the computed
+connections:
+
+* `podsFromWorkload_sim` — the pods generated from two workloads with the same namespace,
+  pod-template labels and container ports are pairwise `PodSim` (agree on namespace, labels,
+  ports; all real pods), whatever `kind`, `replicas`, `name`; there are one or two of them, named
+  `name-1`, `name-2`;
+* `spec_allowed_congr` — the specification `Spec.allowed` reads a pod end only through namespace,
+  labels, container ports (and the labels of its namespace);
+* `kind_replica_invariance` — for `PodSim` pods the connection sets computed by `peerConns` denote
+  the same connections (from `peerConns_spec` and the previous item), as source and as destination;
+* `peerConns_congr` — stronger, and without any validity assumption: the computed sets are *equal*
+  (`peerConns` itself reads a real pod only through namespace, labels, ports, and through its name
+  in the pod-to-itself test);
+* `workload_name_suffix` — in the reported name `ns/owner[Kind]` only the bracket depends on the
+  kind;
+* `no_self_line` — no report line from a workload to itself (C05). -/
 namespace Netpol.Properties.C17
-open Netpol
+open Netpol Engine
+
+/-! ### A. the pods of a workload -/
+
+/-- the replica count `PodsFromWorkloadObject` looks at -/
+def effReplicas (w : Workload) : Int :=
+  if w.kind == "DaemonSet" || w.kind == "CronJob" then 1 else w.replicas.getD 1
+
+/-- the `i`-th generated pod -/
+def podOf (w : Workload) (i : Nat) : Pod :=
+  { ns := w.ns, name := w.name ++ "-" ++ toString (i + 1), labels := w.labels, ports := w.ports,
+    ownerKind := w.kind, ownerName := w.name, variant := variantOf w.labels, hostIP := "127.0.0.1" }
+
+theorem podsFromWorkload_eq (w : Workload) :
+    podsFromWorkload w = if effReplicas w > 1 then [podOf w 0, podOf w 1] else [podOf w 0] := by
+  have : podsFromWorkload w = (List.range (if effReplicas w > 1 then 2 else 1)).map (podOf w) := rfl
+  rw [this]
+  split <;> rfl
+
+/-- one pod, or two -/
+theorem podsFromWorkload_length (w : Workload) :
+    1 ≤ (podsFromWorkload w).length ∧ (podsFromWorkload w).length ≤ 2 := by
+  rw [podsFromWorkload_eq]
+  split <;> simp
+
+/-- two exactly when more than one replica is asked for (never for a DaemonSet or a CronJob) -/
+theorem podsFromWorkload_length_eq (w : Workload) :
+    (podsFromWorkload w).length = if effReplicas w > 1 then 2 else 1 := by
+  rw [podsFromWorkload_eq]
+  split <;> rfl
+
+theorem podOf_name_0 (w : Workload) : (podOf w 0).name = w.name ++ "-1" := by
+  show w.name ++ "-" ++ toString (0 + 1) = _
+  rw [String.append_assoc]
+  rfl
+
+theorem podOf_name_1 (w : Workload) : (podOf w 1).name = w.name ++ "-2" := by
+  show w.name ++ "-" ++ toString (1 + 1) = _
+  rw [String.append_assoc]
+  rfl
+
+/-- the names of the generated pods -/
+theorem podsFromWorkload_names (w : Workload) :
+    (podsFromWorkload w).map (·.name) =
+      if effReplicas w > 1 then [w.name ++ "-1", w.name ++ "-2"] else [w.name ++ "-1"] := by
+  rw [podsFromWorkload_eq]
+  split
+  · simp only [List.map_cons, List.map_nil, podOf_name_0, podOf_name_1]
+  · simp only [List.map_cons, List.map_nil, podOf_name_0]
+
+theorem mem_podsFromWorkload {w : Workload} {p : Pod} (h : p ∈ podsFromWorkload w) :
+    p = podOf w 0 ∨ p = podOf w 1 := by
+  rw [podsFromWorkload_eq] at h
+  split at h
+  · simpa using h
+  · left; simpa using h
+
+theorem podOf_mem_0 (w : Workload) : podOf w 0 ∈ podsFromWorkload w := by
+  rw [podsFromWorkload_eq]
+  split <;> simp
+
+theorem podOf_mem_1 (w : Workload) (h : effReplicas w > 1) : podOf w 1 ∈ podsFromWorkload w := by
+  rw [podsFromWorkload_eq, if_pos h]
+  simp
+
+/-- what a generated pod takes from the manifest: namespace, template labels, container ports, and
+the owner; it is a real pod (`fake = false`, so not a representative peer) -/
+theorem podsFromWorkload_fields {w : Workload} {p : Pod} (h : p ∈ podsFromWorkload w) :
+    p.ns = w.ns ∧ p.labels = w.labels ∧ p.ports = w.ports ∧ p.ownerKind = w.kind ∧
+      p.ownerName = w.name ∧ p.variant = variantOf w.labels ∧ p.fake = false ∧
+      p.isRepresentative = false := by
+  rcases mem_podsFromWorkload h with rfl | rfl <;>
+    exact ⟨rfl, rfl, rfl, rfl, rfl, rfl, rfl, rfl⟩
+
+/-- **C17, the pods of equal templates are interchangeable.** Two workloads with the same
+namespace, pod-template labels and container ports — any kind, any replica count, any name —
+generate pods that agree pairwise on everything the analysis reads. -/
+theorem podsFromWorkload_sim {w w' : Workload} (hns : w.ns = w'.ns) (hl : w.labels = w'.labels)
+    (hp : w.ports = w'.ports) {p p' : Pod} (h : p ∈ podsFromWorkload w)
+    (h' : p' ∈ podsFromWorkload w') : PodSim p p' := by
+  obtain ⟨a1, a2, a3, _, _, _, _, a8⟩ := podsFromWorkload_fields h
+  obtain ⟨b1, b2, b3, _, _, _, _, b8⟩ := podsFromWorkload_fields h'
+  exact ⟨by rw [a1, b1, hns], by rw [a2, b2, hl], by rw [a3, b3, hp], a8, b8⟩
+
+/-- in particular the replicas of one workload, and the same template under another kind, replica
+count or name -/
+theorem podsFromWorkload_sim_self {w : Workload} (kind name : String) (replicas : Option Int)
+    {p p' : Pod} (h : p ∈ podsFromWorkload w)
+    (h' : p' ∈ podsFromWorkload { w with kind := kind, name := name, replicas := replicas }) :
+    PodSim p p' :=
+  podsFromWorkload_sim (w := w) (w' := { w with kind := kind, name := name, replicas := replicas })
+    rfl rfl rfl h h'
+
+/-! ### B. the specification reads a pod through namespace, labels, ports -/
+
+/-- two specification ends the specification cannot tell apart: pods that agree on namespace,
+labels and container ports, in namespaces with the same labels; or the same address -/
+inductive EndSim : Spec.End → Spec.End → Prop
+  | pod {p p' : Pod} (l : Labels) (hns : p.ns = p'.ns) (hl : p.labels = p'.labels)
+      (hp : p.ports = p'.ports) : EndSim (.pod p l) (.pod p' l)
+  | ip (a : Int) : EndSim (.ip a) (.ip a)
+
+theorem EndSim.refl (e : Spec.End) : EndSim e e := by
+  cases e with
+  | pod p l => exact .pod l rfl rfl rfl
+  | ip a => exact .ip a
+
+theorem EndSim.of_podSim {p p' : Pod} (h : PodSim p p') (l : Labels) :
+    EndSim (.pod p l) (.pod p' l) := .pod l h.ns h.labels h.ports
+
+section SpecCongr
+variable {s s' o o' d d' : Spec.End}
+
+theorem npPeerMatches_congr (h : EndSim o o') (np : NetPol) (rp : NPPeer) :
+    Spec.npPeerMatches np rp o = Spec.npPeerMatches np rp o' := by
+  cases h with
+  | ip a => rfl
+  | pod l hns hl hp => cases rp <;> simp only [Spec.npPeerMatches, hns, hl]
+
+theorem npPortMatches_congr (h : EndSim d d') (q : NPPort) (pr : Proto) (x : Int) :
+    Spec.npPortMatches q d pr x = Spec.npPortMatches q d' pr x := by
+  cases h with
+  | ip a => rfl
+  | pod l hns hl hp => simp only [Spec.npPortMatches, hp]
+
+theorem npRuleAllows_congr (ho : EndSim o o') (hd : EndSim d d') (np : NetPol) (r : NPRule)
+    (pr : Proto) (x : Int) :
+    Spec.npRuleAllows np r o d pr x = Spec.npRuleAllows np r o' d' pr x := by
+  simp only [Spec.npRuleAllows, npPeerMatches_congr ho, npPortMatches_congr hd]
+
+theorem subjectMatches_congr (h : EndSim s s') (sub : Subject) :
+    Spec.subjectMatches sub s = Spec.subjectMatches sub s' := by
+  cases h with
+  | ip a => rfl
+  | pod l hns hl hp => cases sub <;> simp only [Spec.subjectMatches, hl]
+
+theorem aPortMatches_congr (h : EndSim d d') (ap : APort) (pr : Proto) (x : Int) :
+    Spec.aPortMatches ap d pr x = Spec.aPortMatches ap d' pr x := by
+  cases h with
+  | ip a => rfl
+  | pod l hns hl hp => cases ap <;> simp only [Spec.aPortMatches, hp]
+
+theorem aRuleMatches_congr (ho : EndSim o o') (hd : EndSim d d') (r : ARule) (pr : Proto) (x : Int) :
+    Spec.aRuleMatches r o d pr x = Spec.aRuleMatches r o' d' pr x := by
+  simp only [Spec.aRuleMatches, subjectMatches_congr ho, aPortMatches_congr hd]
+
+theorem firstMatch_congr (ho : EndSim o o') (hd : EndSim d d') (rules : List ARule) (pr : Proto)
+    (x : Int) : Spec.firstMatch rules o d pr x = Spec.firstMatch rules o' d' pr x := by
+  simp only [Spec.firstMatch, aRuleMatches_congr ho hd]
+
+theorem anpVerdict_congr (hs : EndSim s s') (ho : EndSim o o') (hd : EndSim d d') (v : Spec.View)
+    (dir : Dir) (pr : Proto) (x : Int) :
+    Spec.anpVerdict v s o d dir pr x = Spec.anpVerdict v s' o' d' dir pr x := by
+  simp only [Spec.anpVerdict, subjectMatches_congr hs, firstMatch_congr ho hd]
+
+theorem banpVerdict_congr (hs : EndSim s s') (ho : EndSim o o') (hd : EndSim d d') (v : Spec.View)
+    (dir : Dir) (pr : Proto) (x : Int) :
+    Spec.banpVerdict v s o d dir pr x = Spec.banpVerdict v s' o' d' dir pr x := by
+  simp only [Spec.banpVerdict, subjectMatches_congr hs, firstMatch_congr ho hd]
+
+theorem allowedDir_congr (hs : EndSim s s') (ho : EndSim o o') (hd : EndSim d d') (v : Spec.View)
+    (dir : Dir) (pr : Proto) (x : Int) :
+    Spec.allowedDir v s o d dir pr x = Spec.allowedDir v s' o' d' dir pr x := by
+  have hA := anpVerdict_congr hs ho hd v dir pr x
+  have hB := banpVerdict_congr hs ho hd v dir pr x
+  cases hs with
+  | ip a => rfl
+  | pod l hns hl hp =>
+    simp only [Spec.allowedDir, hA, hB, Spec.governs, Spec.npAllows, Spec.npSelects, hns, hl,
+      npRuleAllows_congr ho hd]
+    rfl
+
+/-- **C17, the specification.** `Spec.allowed` depends on a pod end only through its namespace,
+labels, container ports and the labels of its namespace — on the source side and on the
+destination side. -/
+theorem spec_allowed_congr' (hs : EndSim s s') (hd : EndSim d d') (v : Spec.View) (pr : Proto)
+    (x : Int) : Spec.allowed v s d pr x = Spec.allowed v s' d' pr x := by
+  simp only [Spec.allowed, allowedDir_congr hs hd hd, allowedDir_congr hd hs hd]
+
+end SpecCongr
+
+/-- the form of the task statement: `PodSim` pods as source, and as destination -/
+theorem spec_allowed_congr {p p' : Pod} (h : PodSim p p') (nsl : Labels) (v : Spec.View)
+    (other : Spec.End) (pr : Proto) (x : Int) :
+    Spec.allowed v (.pod p nsl) other pr x = Spec.allowed v (.pod p' nsl) other pr x ∧
+    Spec.allowed v other (.pod p nsl) pr x = Spec.allowed v other (.pod p' nsl) pr x :=
+  ⟨spec_allowed_congr' (EndSim.of_podSim h nsl) (EndSim.refl other) v pr x,
+   spec_allowed_congr' (EndSim.refl other) (EndSim.of_podSim h nsl) v pr x⟩
+
+/-! ### C. the report of a workload: same connections -/
+
+theorem podSim_dstOK {p p' : Pod} (h : PodSim p p') (n : Option NsObj)
+    (hd : (KPeer.pod p n).DstOK) : (KPeer.pod p' n).DstOK :=
+  ⟨h.real', by have := hd.2; unfold Pod.ValidPorts at *; rw [← h.ports]; exact this⟩
+
+/-- **C17, kind / replica invariance (from the specification).** For a valid engine, two `PodSim`
+pods in the same namespace object and a concrete other end that is neither of them: the connection
+sets `list` computes for the two pods denote the same connections — with the pod as source and
+with the pod as destination. "The report for a workload depends only on its namespace,
+pod-template labels and container ports." -/
+theorem kind_replica_invariance (e : Engine) (hv : e.Valid) {p p' : Pod} (h : PodSim p p')
+    (ns : NsObj) (o : KPeer) (a : Int) (ho : o.Concrete a) :
+    (∀ c c', o.DstOK → isPodToItself (.pod p (some ns)) o = false →
+      isPodToItself (.pod p' (some ns)) o = false →
+      e.peerConns (.pod p (some ns)) o = .ok c → e.peerConns (.pod p' (some ns)) o = .ok c' →
+      ∀ pr x, c.den pr x ↔ c'.den pr x) ∧
+    (∀ c c', p.ValidPorts → isPodToItself o (.pod p (some ns)) = false →
+      isPodToItself o (.pod p' (some ns)) = false →
+      e.peerConns o (.pod p (some ns)) = .ok c → e.peerConns o (.pod p' (some ns)) = .ok c' →
+      ∀ pr x, c.den pr x ↔ c'.den pr x) := by
+  constructor
+  · intro c c' hok hne hne' hc hc' pr x
+    obtain ⟨_, h1⟩ := (peerConns_spec e hv (.pod p (some ns)) o 0 a h.real ho hok hne).1 c hc
+    obtain ⟨_, h2⟩ := (peerConns_spec e hv (.pod p' (some ns)) o 0 a h.real' ho hok hne').1 c' hc'
+    rw [h1, h2]
+    exact Eq.to_iff (congrArg (· = true) (spec_allowed_congr h ns.labels e.toView (o.toEnd a) pr x).1)
+  · intro c c' hp hne hne' hc hc' pr x
+    have hd : (KPeer.pod p (some ns)).DstOK := ⟨h.real, hp⟩
+    obtain ⟨_, h1⟩ := (peerConns_spec e hv o (.pod p (some ns)) a 0 ho h.real hd hne).1 c hc
+    obtain ⟨_, h2⟩ := (peerConns_spec e hv o (.pod p' (some ns)) a 0 ho h.real'
+      (podSim_dstOK h _ hd) hne').1 c' hc'
+    rw [h1, h2]
+    exact Eq.to_iff (congrArg (· = true) (spec_allowed_congr h ns.labels e.toView (o.toEnd a) pr x).2)
+
+/-! ### D. the report of a workload: the same value
+
+`peerConns` itself — not only what its result denotes — reads a real pod through namespace, labels
+and container ports only (and through name and namespace in the pod-to-itself test). No validity
+assumption, any other end. -/
+
+section ListCongr
+variable {p p' : Pod} (n : Option NsObj)
+
+theorem ruleConnections_congr (h : PodSim p p') (ports : List NPPort) :
+    NetPol.ruleConnections ports (some (.pod p n)) =
+      NetPol.ruleConnections ports (some (.pod p' n)) := by
+  simp only [NetPol.ruleConnections, CacheLayer.portsRange_congr n h, KPeer.isRepresentative,
+    h.real, h.real']
+
+theorem allowedConns_go_congr_dst (h : PodSim p p') (np : NetPol) (other : KPeer)
+    (rules : List NPRule) (res : ConnSet) :
+    NetPol.allowedConns.go np other (.pod p n) res rules =
+      NetPol.allowedConns.go np other (.pod p' n) res rules := by
+  induction rules generalizing res with
+  | nil => rfl
+  | cons r rest ih =>
+    rw [NetPol.allowedConns.go_cons, NetPol.allowedConns.go_cons, ruleConnections_congr n h]
+    simp only [ih]
+
+theorem allowedConns_go_congr_other (h : PodSim p p') (np : NetPol) (dst : KPeer)
+    (rules : List NPRule) (res : ConnSet) :
+    NetPol.allowedConns.go np (.pod p n) dst res rules =
+      NetPol.allowedConns.go np (.pod p' n) dst res rules := by
+  induction rules generalizing res with
+  | nil => rfl
+  | cons r rest ih =>
+    rw [NetPol.allowedConns.go_cons, NetPol.allowedConns.go_cons,
+      CacheLayer.ruleSelectsPeer_congr n h]
+    simp only [ih]
+
+theorem allowedConns_congr_dst (h : PodSim p p') (np : NetPol) (rules : List NPRule)
+    (other : KPeer) :
+    np.allowedConns rules other (.pod p n) = np.allowedConns rules other (.pod p' n) :=
+  allowedConns_go_congr_dst n h np other rules _
+
+theorem allowedConns_congr_other (h : PodSim p p') (np : NetPol) (rules : List NPRule)
+    (dst : KPeer) :
+    np.allowedConns rules (.pod p n) dst = np.allowedConns rules (.pod p' n) dst :=
+  allowedConns_go_congr_other n h np dst rules _
+
+theorem aruleConns_congr (h : PodSim p p') (ports : Option (List APort)) :
+    ARule.conns ports (.pod p n) = ARule.conns ports (.pod p' n) := by
+  simp only [ARule.conns, CacheLayer.convertNamedPort_congr h]
+
+theorem adminPolicyConns_congr_dst (h : PodSim p p') (rules : List ARule) (other : KPeer)
+    (banp : Bool) :
+    adminPolicyConns rules other (.pod p n) banp = adminPolicyConns rules other (.pod p' n) banp := by
+  simp only [adminPolicyConns, aruleConns_congr n h]
+
+theorem adminPolicyConns_congr_other (h : PodSim p p') (rules : List ARule) (dst : KPeer)
+    (banp : Bool) :
+    adminPolicyConns rules (.pod p n) dst banp = adminPolicyConns rules (.pod p' n) dst banp := by
+  simp only [adminPolicyConns, CacheLayer.arule_selectsPeer_congr n h]
+
+/-- one direction, the pod as source -/
+theorem xgressConns_congr_src (h : PodSim p p') (e : Engine) (dst : KPeer) (i : Bool) :
+    e.xgressConns (.pod p n) dst i = e.xgressConns (.pod p' n) dst i := by
+  apply xgressConns_congr
+  · apply anpConns_congr
+    intro a
+    cases i
+    · simp only [anpSingle, Bool.not_false, if_true, CacheLayer.anp_selects_congr n h]
+    · simp only [anpSingle, Bool.not_true, Bool.false_eq_true, if_false,
+        adminPolicyConns_congr_other n h]
+  · rw [netpolConns_eq, netpolConns_eq]
+    have hstep : npFold (.pod p n) dst i = npFold (.pod p' n) dst i := by
+      funext acc np
+      cases i
+      · rfl
+      · simp only [npFold, npStep, if_true, NetPol.ingressAllowedConns,
+          allowedConns_congr_other n h]
+    have hpol : e.policiesSelecting (selfPeer (.pod p n) dst i) (dirOf i) =
+        e.policiesSelecting (selfPeer (.pod p' n) dst i) (dirOf i) := by
+      cases i
+      · exact CacheLayer.policiesSelecting_congr n h e _
+      · rfl
+    rw [hstep, hpol]
+  · apply defaultConns_congr
+    intro b
+    cases i
+    · simp only [banpSingle, Bool.false_eq_true, if_false, CacheLayer.banp_selects_congr n h]
+    · simp only [banpSingle, if_true, adminPolicyConns_congr_other n h]
+
+/-- one direction, the pod as destination -/
+theorem xgressConns_congr_dst (h : PodSim p p') (e : Engine) (src : KPeer) (i : Bool) :
+    e.xgressConns src (.pod p n) i = e.xgressConns src (.pod p' n) i := by
+  apply xgressConns_congr
+  · apply anpConns_congr
+    intro a
+    cases i
+    · simp only [anpSingle, Bool.not_false, if_true, adminPolicyConns_congr_dst n h,
+        adminPolicyConns_congr_other n h]
+    · simp only [anpSingle, Bool.not_true, Bool.false_eq_true, if_false,
+        CacheLayer.anp_selects_congr n h, adminPolicyConns_congr_dst n h]
+  · rw [netpolConns_eq, netpolConns_eq]
+    have hstep : npFold src (.pod p n) i = npFold src (.pod p' n) i := by
+      funext acc np
+      cases i
+      · simp only [npFold, npStep, Bool.false_eq_true, if_false, NetPol.egressAllowedConns,
+          allowedConns_congr_dst n h, allowedConns_congr_other n h]
+      · simp only [npFold, npStep, if_true, NetPol.ingressAllowedConns,
+          allowedConns_congr_dst n h]
+    have hpol : e.policiesSelecting (selfPeer src (.pod p n) i) (dirOf i) =
+        e.policiesSelecting (selfPeer src (.pod p' n) i) (dirOf i) := by
+      cases i
+      · rfl
+      · exact CacheLayer.policiesSelecting_congr n h e _
+    rw [hstep, hpol]
+  · apply defaultConns_congr
+    intro b
+    cases i
+    · simp only [banpSingle, Bool.false_eq_true, if_false, adminPolicyConns_congr_dst n h,
+        adminPolicyConns_congr_other n h]
+    · simp only [banpSingle, if_true, CacheLayer.banp_selects_congr n h,
+        adminPolicyConns_congr_dst n h]
+
+theorem peerConns_of_self_eq (e : Engine) {s d s' d' : KPeer}
+    (hself : isPodToItself s d = isPodToItself s' d')
+    (hx : ∀ i, e.xgressConns s d i = e.xgressConns s' d' i) :
+    e.peerConns s d = e.peerConns s' d' := by
+  unfold peerConns
+  rw [hself, hx false, hx true]
+
+/-- **C17, kind / replica invariance (the same value).** `PodSim` pods get *equal* connection
+sets, as source and as destination, towards any other end, provided the pod-to-itself test answers
+the same for both (e.g. the other end is neither of them). No assumption on the policies. -/
+theorem peerConns_congr (h : PodSim p p') (e : Engine) (o : KPeer) :
+    (isPodToItself (.pod p n) o = isPodToItself (.pod p' n) o →
+      e.peerConns (.pod p n) o = e.peerConns (.pod p' n) o) ∧
+    (isPodToItself o (.pod p n) = isPodToItself o (.pod p' n) →
+      e.peerConns o (.pod p n) = e.peerConns o (.pod p' n)) :=
+  ⟨fun hs => peerConns_of_self_eq e hs (xgressConns_congr_src n h e o),
+   fun hs => peerConns_of_self_eq e hs (xgressConns_congr_dst n h e o)⟩
+
+/-- both ends replaced at once: two workloads against two workloads with the same templates -/
+theorem peerConns_congr_both {q q' : Pod} (m : Option NsObj) (h : PodSim p p') (hq : PodSim q q')
+    (e : Engine)
+    (hself : isPodToItself (.pod p n) (.pod q m) = isPodToItself (.pod p' n) (.pod q' m)) :
+    e.peerConns (.pod p n) (.pod q m) = e.peerConns (.pod p' n) (.pod q' m) :=
+  peerConns_of_self_eq e hself (fun i =>
+    (xgressConns_congr_src n h e (.pod q m) i).trans (xgressConns_congr_dst m hq e (.pod p' n) i))
+
+end ListCongr
+
+/-! ### E. names -/
+
+/-- the part of the reported name that does not depend on the controller kind: `ns/owner`, or
+`ns/pod` for a pod without owner -/
+def workloadBase (p : Pod) : String :=
+  p.ns ++ "/" ++ (if p.ownerName == "" then p.name else p.ownerName)
+
+/-- the kind shown in brackets -/
+def workloadKind (p : Pod) : String := if p.ownerKind == "" then "Pod" else p.ownerKind
+
+/-- **C17, the name.** For a real pod `WorkloadPeer.String()` is `base[Kind]`; the base does not
+read the owner kind. -/
+theorem workload_name_suffix (p : Pod) (h : p.fake = false) :
+    workloadName p = workloadBase p ++ "[" ++ workloadKind p ++ "]" ∧
+    ∀ k : String, workloadBase { p with ownerKind := k } = workloadBase p := by
+  constructor
+  · unfold workloadName workloadBase workloadKind
+    rw [h]
+    rfl
+  · intro k; rfl
+
+/-- two pods equal except for the owner kind: same base, the bracket shows the kind -/
+theorem workload_name_kind (p : Pod) (h : p.fake = false) (k k' : String) (hk : k ≠ "")
+    (hk' : k' ≠ "") :
+    workloadName { p with ownerKind := k } = workloadBase p ++ "[" ++ k ++ "]" ∧
+    workloadName { p with ownerKind := k' } = workloadBase p ++ "[" ++ k' ++ "]" := by
+  have e1 : (k == "") = false := by simpa using hk
+  have e2 : (k' == "") = false := by simpa using hk'
+  constructor
+  · rw [(workload_name_suffix { p with ownerKind := k } h).1]
+    simp only [workloadKind, e1, Bool.false_eq_true, if_false]
+    rfl
+  · rw [(workload_name_suffix { p with ownerKind := k' } h).1]
+    simp only [workloadKind, e2, Bool.false_eq_true, if_false]
+    rfl
+
+/-- all pods generated from a (named) workload carry the same report name `ns/name[kind]`: the
+replicas are one line of the report -/
+theorem podsFromWorkload_workloadName {w : Workload} (hn : w.name ≠ "") (hk : w.kind ≠ "")
+    {p : Pod} (h : p ∈ podsFromWorkload w) :
+    workloadName p = w.ns ++ "/" ++ w.name ++ "[" ++ w.kind ++ "]" := by
+  obtain ⟨a1, _, _, a4, a5, _, a7, _⟩ := podsFromWorkload_fields h
+  have e1 : (w.name == "") = false := by simpa using hn
+  have e2 : (w.kind == "") = false := by simpa using hk
+  rw [(workload_name_suffix p a7).1]
+  simp only [workloadBase, workloadKind, a1, a4, a5, e1, e2, Bool.false_eq_true, if_false]
+
+/-- **C17, no line from a workload to itself** (C05, 4b) -/
+theorem no_self_line {e : Engine} {peers : List LPeer} {focus : String} {entries : List Entry}
+    (h : e.connsBetweenPeers peers focus = .ok entries) :
+    ∀ x ∈ entries, x.src.str ≠ x.dst.str :=
+  C05.no_self_pair h
+
+/-! ## non-vacuity: a Deployment with three replicas, a StatefulSet with one, same template -/
+namespace Example
+attribute [local instance] Engine.decEqExcept
+
+def nsN : NsObj := ⟨"n", [(nsNameLabelKey, "n")]⟩
+def tmplLabels : Labels := [("app", "web")]
+def tmplPorts : List CPort := [⟨"http", .TCP, 8080⟩]
+def dep : Workload := ⟨"Deployment", "n", "web", some 3, tmplLabels, tmplPorts⟩
+def sts : Workload := ⟨"StatefulSet", "n", "web2", some 1, tmplLabels, tmplPorts⟩
+def ds : Workload := ⟨"DaemonSet", "n", "agent", some 5, [("app", "agent")], []⟩
+def job : Workload := ⟨"Job", "n", "client", none, [("app", "client")], []⟩
+
+/-- two pods for three replicas, one for one, one for a DaemonSet whatever it says -/
+example : (podsFromWorkload dep).map (·.name) = ["web-1", "web-2"] ∧
+    (podsFromWorkload sts).map (·.name) = ["web2-1"] ∧
+    (podsFromWorkload ds).map (·.name) = ["agent-1"] ∧
+    (podsFromWorkload job).map (·.name) = ["client-1"] := by decide
+
+def web1 : Pod := podOf dep 0
+def web2 : Pod := podOf dep 1
+def other : Pod := podOf sts 0
+def cl : Pod := podOf job 0
+
+theorem web1_mem : web1 ∈ podsFromWorkload dep := podOf_mem_0 dep
+theorem web2_mem : web2 ∈ podsFromWorkload dep := podOf_mem_1 dep (by decide)
+theorem other_mem : other ∈ podsFromWorkload sts := podOf_mem_0 sts
+
+/-- replicas of one workload, and pods of two kinds of controller with the same template -/
+theorem sim_replicas : PodSim web1 web2 := podsFromWorkload_sim rfl rfl rfl web1_mem web2_mem
+theorem sim_kinds : PodSim web1 other :=
+  podsFromWorkload_sim (w := dep) (w' := sts) rfl rfl rfl web1_mem other_mem
+
+/-- … and they do differ in what the analysis must not read -/
+example : web1.name ≠ other.name ∧ web1.ownerKind ≠ other.ownerKind ∧
+    web1.ownerName ≠ other.ownerName ∧ web1.name ≠ web2.name := by decide
+
+/-- ingress to `app=web`: from `app=client` on the named port `http` -/
+def np : NetPol :=
+  { ns := "n", name := "to-web", podSel := ⟨[("app", "web")], []⟩, types := [.ingress],
+    ingress := [⟨[.sel (some ⟨[("app", "client")], []⟩) none], [⟨none, .name "http"⟩]⟩],
+    egress := [] }
+
+def eng : Engine :=
+  { namespaces := [nsN],
+    pods := podsFromWorkload dep ++ podsFromWorkload sts ++ podsFromWorkload job,
+    netpols := [np] }
+
+abbrev K (p : Pod) : KPeer := .pod p (some nsN)
+
+example : eng.Valid := by decide
+example : (K cl).Concrete 0 ∧ (K cl).DstOK ∧ web1.ValidPorts := by decide
+
+/-- the report line `client → web`, computed on the first replica -/
+theorem conn_cl_web1 : eng.peerConns (K cl) (K web1) =
+    .ok ⟨false, some ⟨[⟨8080, 8080⟩], [], []⟩, none, none⟩ := by decide
+
+/-- the theorem at work: the same set for the second replica and for the StatefulSet's pod -/
+example : eng.peerConns (K cl) (K web2) = .ok ⟨false, some ⟨[⟨8080, 8080⟩], [], []⟩, none, none⟩ := by
+  rw [← (peerConns_congr (some nsN) sim_replicas eng (K cl)).2 (by decide)]
+  exact conn_cl_web1
+example : eng.peerConns (K cl) (K other) = .ok ⟨false, some ⟨[⟨8080, 8080⟩], [], []⟩, none, none⟩ := by
+  rw [← (peerConns_congr (some nsN) sim_kinds eng (K cl)).2 (by decide)]
+  exact conn_cl_web1
+/-- as a source -/
+example : eng.peerConns (K web1) (K cl) = eng.peerConns (K other) (K cl) :=
+  (peerConns_congr (some nsN) sim_kinds eng (K cl)).1 (by decide)
+
+/-- `kind_replica_invariance` applied (its hypotheses hold) -/
+example (c c' : ConnSet) (h : eng.peerConns (K cl) (K web1) = .ok c)
+    (h' : eng.peerConns (K cl) (K other) = .ok c') : ∀ pr x, c.den pr x ↔ c'.den pr x :=
+  (kind_replica_invariance eng (by decide) sim_kinds nsN (K cl) 0 (by decide)).2 c c' (by decide)
+    (by decide) (by decide) h h'
+
+/-- the hypothesis on the pod-to-itself test cannot be dropped: a pod to itself gets everything,
+its sibling replica towards it only what the policies allow -/
+example : eng.peerConns (K web1) (K web1) = .ok (ConnSet.mk' true) ∧
+    eng.peerConns (K web2) (K web1) = .ok (ConnSet.mk' false) := by decide
+
+/-- the specification on the two pods -/
+example : Spec.allowed eng.toView (.pod cl nsN.labels) (.pod web1 nsN.labels) .TCP 8080 =
+    Spec.allowed eng.toView (.pod cl nsN.labels) (.pod other nsN.labels) .TCP 8080 :=
+  (spec_allowed_congr sim_kinds nsN.labels eng.toView (.pod cl nsN.labels) .TCP 8080).2
+
+/-- names: one report name per workload, the kind only in the bracket -/
+example : workloadName web1 = "n/web[Deployment]" ∧ workloadName web2 = "n/web[Deployment]" ∧
+    workloadName other = "n/web2[StatefulSet]" ∧
+    workloadName { web1 with ownerKind := "ReplicaSet" } = "n/web[ReplicaSet]" ∧
+    workloadBase web1 = "n/web" ∧ workloadBase { web1 with ownerKind := "ReplicaSet" } = "n/web" := by
+  decide
+
+/-- the workload peers of the engine: three, for four pods -/
+example : (eng.podOwnersMap.toOption.map fun l => l.map (·.1)) =
+    some ["n/web[Deployment]", "n/web2[StatefulSet]", "n/client[Job]"] := by decide
+
+end Example
 
 end Netpol.Properties.C17
